@@ -100,7 +100,52 @@ def ctor_certificate(o):
     return True
 
 
+def diagonal_class_diffs(o, what=""):
+    """class invariant of the *Diag* classes: the matrices they store are diagonal (their cheap inverse / log-determinant
+    `invert_diagonal` is only correct under that precondition)"""
+    if "Diag" not in o.cls:
+        return []
+    out = []
+    for fld in ("Lambda", "Sigma"):
+        v = o.f.get(fld)
+        if not isinstance(v, Val) or len(v.axes) < 2:
+            continue
+        A, B = v.axes[-2], v.axes[-1]
+        nt = nf.normalize(v)
+        def diagonal_term(n):
+            a, b = A[0], B[0]
+            if any(g[0] == "delta" and set(g[1]) == {a, b} for g in n.f):
+                return True
+            # a diagonal matrix gathered with the same index list on both axes, d[idx_a] [idx_a == idx_b]: diagonal for the distinct
+            # coordinate lists the API documents
+            sa = [(h, ix) for h, ix in n.f if nf.ST.head[h].kind == "Sel" and len(ix) == 2 and ix[0] == a]
+            sb = [(h, ix) for h, ix in n.f if nf.ST.head[h].kind == "Sel" and len(ix) == 2 and ix[0] == b]
+            if any(h1 == h2 and i1[1] == i2[1] for h1, i1 in sa for h2, i2 in sb):
+                return True
+            # the inverse of such a matrix
+            for h, ix in n.f:
+                info = nf.ST.head[h]
+                if info.kind == "Inv" and len(ix) >= 2 and set(ix[-2:]) == {a, b}:
+                    m1, m2 = info.mslots
+                    def inner(nn):
+                        if any(g[0] == "delta" and set(g[1]) == {m1, m2} for g in nn.f):
+                            return True
+                        s1 = [(hh, jx) for hh, jx in nn.f if nf.ST.head[hh].kind == "Sel" and len(jx) == 2 and jx[0] == m1]
+                        s2 = [(hh, jx) for hh, jx in nn.f if nf.ST.head[hh].kind == "Sel" and len(jx) == 2 and jx[0] == m2]
+                        return any(h1 == h2 and i1[1] == i2[1] for h1, i1 in s1 for h2, i2 in s2)
+                    if all(inner(nn) for _, nn in info.arg[1]):
+                        return True
+            return False
+        if nt and A and B and nf._as_diagonal(nt, A, B) is None and not all(diagonal_term(n) for _, n in nt):
+            offd = [(c, n) for c, n in nt if not diagonal_term(n)]
+            out.append((f"{o.cls}.{fld} is diagonal", [("only_impl", nf.show_coef(c), nf.show_net(n, v)) for c, n in offd[:3]]))
+    return out
+
+
 def invariant_diffs(o, fields=None, what="", lndet_oracle=None):
+    dg = diagonal_class_diffs(o, what)
+    if dg:
+        return dg
     if fields is None and ctor_certificate(o):
         return []
     return _invariant_diffs(o, fields, what, lndet_oracle)
@@ -162,6 +207,9 @@ def lndet_rank_one(Lam):
         return None
     a, b = Lam.axes[-2][0], Lam.axes[-1][0]
     base = [t for t in nt if len(t[1].f) == 1 and t[0].is_one() and nf.ST.head[t[1].f[0][0]].sym]
+    if not base:
+        # X diagonal:  d[.,a] delta[a,b]
+        base = [t for t in nt if any(g[0] == "delta" and set(g[1]) == {a, b} for g in t[1].f)]
     rank = [t for t in nt if t not in base]
     if len(base) != 1 or len(rank) != 1:
         return None
@@ -298,3 +346,59 @@ def logdomain_ob(prog, group):
     return Ob("logdomain/no-log-of-product", run,
               "no logarithm is taken of a product / determinant over a whole dimension (log-determinants are accumulated in the log domain, so they stay finite for every D)",
               "gaussian_toolbox/utils/linalg.py::invert_diagonal", group=group)
+
+
+# ---------------------------------------------------------------- float64 rule (no narrowing of floating-point values)
+_NARROW = ("float32", "float16", "bfloat16", "half", "single", "float8_e4m3fn", "float8_e5m2")
+DT_SYNTH = '''
+def bad(S):
+    return jnp.linalg.cholesky(S.astype(jnp.float32))
+def good(S):
+    return jnp.linalg.cholesky(S.astype(S.dtype))
+'''
+
+
+def _narrowing_sites(tree, relpath, qual):
+    import ast
+    out = []
+    for n in ast.walk(tree):
+        name = None
+        if isinstance(n, ast.Attribute) and n.attr in _NARROW:
+            name = ast.unparse(n)
+        elif isinstance(n, ast.Name) and n.id in _NARROW:
+            name = n.id
+        elif isinstance(n, ast.Constant) and isinstance(n.value, str) and n.value in _NARROW:
+            # only as a dtype argument / astype operand, not in docstrings
+            name = None
+        if isinstance(n, ast.Call):
+            for a in list(n.args) + [k.value for k in n.keywords]:
+                if isinstance(a, ast.Constant) and isinstance(a.value, str) and a.value in _NARROW:
+                    out.append(f"{relpath}:{n.lineno} in {qual(n.lineno)}: `{ast.unparse(n)[:100]}` narrows to {a.value!r}")
+        if name is not None:
+            out.append(f"{relpath}:{n.lineno} in {qual(n.lineno)}: `{name}` - values are narrowed below float64 "
+                       "(the contracts hold to 1e-8 relative in float64; a float32 round trip loses 7 digits)")
+    return out
+
+
+def no_narrowing_ob(prog, group):
+    import ast
+    from ..core import Ob, Refuted
+    from ..nf import Undecided
+
+    def run():
+        t = ast.parse(DT_SYNTH)
+        if len(_narrowing_sites(t.body[0], "synthetic", lambda l: "bad")) != 1 or _narrowing_sites(t.body[1], "synthetic", lambda l: "good"):
+            raise Undecided("float64 rule: synthetic positive / negative example mismatch")
+        bad = []
+        nmods = 0
+        for mod, tree in prog.modules.items():
+            nmods += 1
+            bad += _narrowing_sites(tree, prog.relpath(mod), lambda l, mod=mod: prog.qualname_at(mod, l))
+        if nmods < 8:
+            raise Undecided(f"only {nmods} modules scanned")
+        bad = sorted(set(bad))
+        if bad:
+            raise Refuted("; ".join(bad[:2]), bad[0].split(":")[0] + "::" + bad[0].split(" in ")[1].split(":")[0], bad)
+        return [], dict(modules=nmods)
+    return Ob("dtype/no-narrowing", run, "no floating-point value is cast below float64 anywhere in the library (astype / dtype= / jnp.float32 ...)",
+              "gaussian_toolbox/*", group=group)
